@@ -405,6 +405,95 @@ def cacg(d, ctx):
 
 # --------------------------------------- integrates to one (library pdf, D=2)
 
+@subcheck(SUBCHECKS, 'stored_parameters', quick=500, thorough=8000)
+def stored_parameters(d, ctx):
+    """"at the stored parameters": a distribution object that has been
+    evaluated and whose parameter fields are then reassigned (or overwritten in
+    place) must evaluate like a fresh object with the new parameters; an
+    evaluation must not change the stored parameters either.  The fresh
+    object's values are judged by the other sub-checks."""
+    import dataclasses
+    import pb_bss.distribution as dist
+    from pb_bss.distribution.complex_bingham import ComplexBingham
+    which = d.choice(['gaussian', 'diagonal', 'spherical', 'ccsg', 'vmf', 'watson',
+                      'bingham', 'cacg'])
+    D = d.int(2, 5)
+    N = d.int(1, 6)
+    lead = tuple(d.int(1, 3) for _ in range(d.int(0, 1)))
+    rng = d.rng()
+    how = d.choice(['assign-new-array', 'overwrite-in-place'])
+
+    def params():
+        if which == 'gaussian':
+            return dict(mean=rng.normal(size=(*lead, D)),
+                        covariance=gen.spd(rng, D, 10 ** rng.uniform(0, 3), 10 ** rng.uniform(-2, 2), lead))
+        if which == 'diagonal':
+            return dict(mean=rng.normal(size=(*lead, D)),
+                        covariance=10 ** rng.uniform(-2, 2, size=(*lead, D)))
+        if which == 'spherical':
+            return dict(mean=rng.normal(size=(*lead, D)),
+                        covariance=np.asarray(10 ** rng.uniform(-2, 2, size=lead)))
+        if which == 'ccsg':
+            return dict(covariance=gen.hpd(rng, D, 10 ** rng.uniform(0, 3), 10 ** rng.uniform(-2, 2), lead))
+        if which == 'vmf':
+            return dict(mean=gen.unit(rng.normal(size=(*lead, D))),
+                        concentration=np.asarray(10 ** rng.uniform(-2, 2.5, size=lead)))
+        if which == 'watson':
+            return dict(mode=gen.unit(gen.cnormal(rng, (*lead, D))),
+                        concentration=np.asarray(10 ** rng.uniform(-2, 2.5, size=lead)))
+        if which == 'bingham':
+            lam = -np.sort(rng.uniform(0.1, 30, size=(*lead, D)), axis=-1)
+            lam = lam - lam.max(axis=-1, keepdims=True)
+            V = np.stack([gen.haar_unitary(rng, D) for _ in range(int(np.prod(lead, dtype=int)))]
+                         ).reshape(*lead, D, D)
+            return dict(covariance_eigenvectors=V, covariance_eigenvalues=lam)
+        lam = np.sort(rng.uniform(0.01, 1, size=(*lead, D)), axis=-1)
+        lam = lam / lam.max(axis=-1, keepdims=True)
+        V = np.stack([gen.haar_unitary(rng, D) for _ in range(int(np.prod(lead, dtype=int)))]
+                     ).reshape(*lead, D, D)
+        return dict(covariance_eigenvectors=V, covariance_eigenvalues=lam)
+
+    cls = {'gaussian': dist.Gaussian, 'diagonal': dist.DiagonalGaussian,
+           'spherical': dist.SphericalGaussian,
+           'ccsg': dist.ComplexCircularSymmetricGaussian, 'vmf': dist.VonMisesFisher,
+           'watson': dist.ComplexWatson, 'bingham': ComplexBingham,
+           'cacg': dist.ComplexAngularCentralGaussian}[which]
+    real = which in ('gaussian', 'diagonal', 'spherical', 'vmf')
+    y = rng.normal(size=(*lead, N, D)) if real else gen.cnormal(rng, (*lead, N, D))
+    if which in ('watson', 'bingham'):
+        y = gen.unit(y)
+    p1, p2 = params(), params()
+    if which in ('gaussian', 'diagonal', 'spherical'):
+        # the Gaussian classes store the precision factor and its log
+        # determinant as fields of their own, computed from the covariance at
+        # construction: the covariance field alone is not "the stored
+        # parameters"; only the mean is exchanged here
+        p2['covariance'] = p1['covariance']
+    ctx.describe(which=which, D=D, N=N, lead=lead, how=how)
+    ctx.label(which, how)
+    obj = cls(**{k: np.array(v) for k, v in p1.items()})
+    first = np.asarray(ctx.lib(obj.log_pdf, y))
+    for k, v in p1.items():
+        require(np.array_equal(np.asarray(getattr(obj, k)), v),
+                'evaluation-changed-the-stored-parameters', f'{which}.{k}', which=which)
+    again = np.asarray(ctx.lib(obj.log_pdf, y))
+    require(np.array_equal(first, again, equal_nan=True), 'second-evaluation-differs',
+            which, which=which)
+    for k, v in p2.items():
+        cur = getattr(obj, k)
+        if how == 'overwrite-in-place' and isinstance(cur, np.ndarray) and cur.ndim >= 1:
+            cur[...] = v
+        else:
+            setattr(obj, k, np.array(v))
+    got = np.asarray(ctx.lib(obj.log_pdf, y))
+    fresh = np.asarray(ctx.lib(cls(**{k: np.array(v) for k, v in p2.items()}).log_pdf, y))
+    if not (np.all(np.isfinite(got)) and np.all(np.isfinite(fresh))):
+        raise Borderline('non-finite log_pdf (judged elsewhere)')
+    require_close(got, fresh, 'log_pdf-is-not-evaluated-at-the-stored-parameters',
+                  rtol=1e-12, atol=1e-12, what=f'{which} ({how})', which=which)
+    ctx.nontrivial(True)
+
+
 def _sphere_grid(ns=48, nphi=48):
     s, ws = np.polynomial.legendre.leggauss(ns)
     s = (s + 1) / 2
